@@ -88,6 +88,10 @@ type streamCase struct {
 	// so the input loop works against a full queue
 	Queue int  `json:"event_queue_size,omitempty"`
 	Slow  bool `json:"slow_consumer,omitempty"`
+	// SuspendFirst: before the stream, Queue+1 keys are typed and not read
+	// (the input goroutine waits to deliver the last one), the application
+	// suspends and resumes, then reads on
+	SuspendFirst bool `json:"suspend_and_resume_with_undelivered_keys_first,omitempty"`
 }
 
 func evText(ev vaxis.Event) (string, bool) {
@@ -358,6 +362,7 @@ func genStream(r gen.R) streamCase {
 		// a queue larger than the number of start-up notifications (which
 		// are posted without blocking) and smaller than the stream's events
 		sc.Queue, sc.Slow = r.Range(48, 96), true
+		sc.SuspendFirst = r.Intn(2) == 0
 		if n < 150 {
 			n = r.Range(150, 250)
 		}
@@ -424,6 +429,56 @@ func runStream(w *harness.W, sc streamCase, r gen.R) (violKey string) {
 	} else if d != "" {
 		w.Violation("caps:"+strings.SplitN(d, " ", 2)[0], "capabilities after New differ from what the terminal advertised: "+d, sc, d, "exactly the advertised features")
 	}
+	if sc.SuspendFirst && sc.Queue > 0 {
+		keys := make([]byte, sc.Queue+1)
+		for i := range keys {
+			keys[i] = byte('a' + i%26)
+		}
+		sess.Con.Inject(keys)
+		for k := 0; k < 20000 && sess.Con.PendingInput() > 0; k++ {
+			time.Sleep(100 * time.Microsecond)
+		}
+		time.Sleep(20 * time.Millisecond)
+		srDone := make(chan struct{})
+		go func() {
+			defer close(srDone)
+			sess.Vx.Suspend()
+			sess.Vx.Resume()
+		}()
+		select {
+		case <-srDone:
+		case <-time.After(20 * time.Second):
+			closed = true
+			w.Inconclusive("suspend-resume-did-not-return")
+			return ""
+		}
+		var got []byte
+		t := time.After(10 * time.Second)
+	pre:
+		for len(got) < len(keys) {
+			select {
+			case ev := <-sess.Vx.Events():
+				if k, ok := ev.(vaxis.Key); ok && k.Keycode < 128 {
+					got = append(got, byte(k.Keycode))
+				}
+			case <-t:
+				break pre
+			}
+		}
+		w.Count("streams_after_suspend_resume_with_undelivered_keys", 1)
+		if string(got) != string(keys) {
+			key := "suspend-resume:keys-typed-before-suspend:lost-or-reordered"
+			w.Violation(key, fmt.Sprintf("%d keys typed before Suspend/Resume with an event queue of %d that the application had not read yet", len(keys), sc.Queue), sc, string(got), string(keys))
+			return key
+		}
+		// let the input goroutine of the first session end, and what the
+		// terminal answered to Resume's own queries pass
+		time.Sleep(20 * time.Millisecond)
+		if _, ok := sess.Sync(); !ok {
+			w.Inconclusive("sync-after-resume-timeout")
+			return ""
+		}
+	}
 	data := wire(sc)
 	// inject in random chunks
 	if sc.Chunks == nil {
@@ -469,6 +524,11 @@ func runStream(w *harness.W, sc streamCase, r gen.R) (violKey string) {
 			if k, ok := ev.(vaxis.Key); ok && k.Keycode == sentinelRune(i) {
 				i++
 				continue
+			}
+			if k, ok := ev.(vaxis.Key); ok && k.Keycode > sentinelRune(i) && k.Keycode < sentinelRune(i)+rune(len(sc.Segs)-i) && len(sc.Segs) < 0xFFF0 {
+				key := "order:later-input-delivered-first"
+				w.Violation(key, fmt.Sprintf("the marker key closing segment %d was delivered while the marker of segment %d was still outstanding", int(k.Keycode-sentinelRune(0)), i), sc, fmt.Sprintf("marker %d", int(k.Keycode-sentinelRune(0))), fmt.Sprintf("marker %d", i))
+				return key
 			}
 			if t, ok := evText(ev); ok {
 				got[i] = append(got[i], t)
@@ -602,6 +662,9 @@ type queryCase struct {
 	Query  string `json:"query"`
 	Timing string `json:"timing"` // in-time | late | never
 	Keys   int    `json:"concurrent_keys"`
+	// Stray: colour reports of the queried kind (with another colour) that
+	// arrive before the query, when nobody is waiting for them
+	Stray int `json:"reports_nobody_asked_for_before_the_query,omitempty"`
 }
 
 func runQuery(w *harness.W, r gen.R) {
@@ -613,6 +676,9 @@ func runQuery(w *harness.W, r gen.R) {
 	}
 	if (qc.Query == "bg" || qc.Query == "fg") && r.Intn(3) == 0 {
 		qc.OnlyOne = qc.Query
+	}
+	if (qc.Query == "bg" || qc.Query == "fg" || qc.Query == "color") && r.Intn(2) == 0 {
+		qc.Stray = r.Range(1, 3)
 	}
 	cj, _ := json.Marshal(qc)
 	w.Begin(string(cj))
@@ -645,6 +711,15 @@ func runQuery(w *harness.W, r gen.R) {
 		sess.Term.BgColor = uint32(r.Intn(1 << 24))
 		sess.Term.FgColor = uint32(r.Intn(1 << 24))
 	})
+	if qc.Stray > 0 {
+		rep := map[string]string{"fg": "\x1b]10;rgb:0101/0202/0303\x1b\\", "bg": "\x1b]11;rgb:0101/0202/0303\x07", "color": "\x1b]4;1;rgb:0101/0202/0303\x1b\\"}[qc.Query]
+		sess.Con.Inject([]byte(strings.Repeat(rep, qc.Stray)))
+		if _, ok := sess.Sync(); !ok {
+			w.Inconclusive("stray-report-sync-timeout")
+			return
+		}
+		w.Count("queries_after_a_report_nobody_asked_for", 1)
+	}
 	held := make(chan []byte, 8)
 	switch qc.Timing {
 	case "never":
